@@ -180,9 +180,9 @@ def after_commit(tree):
     _expect(b[0], 'if session.in_nested_transaction():\n    self.savepoints.pop(session.get_nested_transaction(), None)', who)
     _expect(b[1], 'self.clear(session)', who)
     # ... and it is the listener registered for after_commit
-    init = find_method(tree, 'VersioningManager', '__init__')
-    if "'after_commit': self.after_commit" not in _src(init):
-        raise Unsupported('__init__: after_commit is not bound to self.after_commit')
+    reset = find_method(tree, 'VersioningManager', 'reset')
+    if "'after_commit': self.after_commit" not in _src(reset):
+        raise Unsupported('reset: after_commit is not bound to self.after_commit')
     return ('(* after_commit(session): inside a nested transaction (a savepoint being released) the entry of that savepoint is\n'
             '   dropped and clear() does nothing; otherwise clear() (checked verbatim) - the model pops the session\'s stack on\n'
             '   SRelease and empties it on Commit *)\n'
